@@ -183,6 +183,11 @@ def gen_session(rng, tier):
             d = bytes([rng.randrange(0x80, 0x100)]) + rng.randbytes(rng.randrange(3, 40)) if rng.random() < .7 else rng.randbytes(rng.randrange(0, 4))
             if len(d) >= 4 or rng.random() < 0.3:
                 L.append(f"sock turn dgram {hx(d)}" if d else "sock turn dgram -")
+    # quiescent tail: the relay answers nothing any more; every request runs out (500 + 1000 + 500 ms), so whatever is
+    # still held must be released ("held ... until the permission request is answered or has timed out")
+    for _ in range(8):
+        L.append("sock turn advance 2100")
+    L.append("sock turn advance 7")         # marker: the oracle requires empty hold queues here
     return L
 
 
@@ -259,6 +264,9 @@ def oracle(L, out, known=None):
                 channels[ch] = peer
         # nothing may stay behind once the queue of a peer is reported empty and permission is installed
         q = dict((int(a), int(b)) for a, b in (x.split(":") for x in re.search(r"q=\[(.*?)\]", state).group(1).split(",") if x))
+        if line == "sock turn advance 7" and any(q.values()):
+            return (f"payloads are still held for peers {sorted(p for p in q if q[p])} although every request has had 17 s of silence "
+                    f"to run through its retransmission schedule and time out (state {state[:120]})")
         for p in range(4):
             if len(expected[p]) != q.get(p, 0):
                 return (f"peer {p}: {len(expected[p])} payload(s) accepted but not yet on the wire, the socket holds {q.get(p, 0)} "
